@@ -18,6 +18,8 @@ use robopoker::gameplay::seat::State;
 use robopoker::gameplay::settlement::Settlement;
 use robopoker::gameplay::showdown::Showdown;
 use rpharness::*;
+use std::sync::atomic::{AtomicBool, AtomicU64, Ordering};
+use std::sync::Mutex;
 
 #[derive(Clone, Copy, PartialEq, Eq, Hash, Debug)]
 struct Seat {
@@ -69,8 +71,50 @@ fn op_of(l: &[Seat]) -> String {
     s
 }
 
-/// the real code
+// watchdog: `settle` is a pair of `while let` loops; the model proves they terminate, a regression
+// (e.g. `>` -> `>=` in `remaining`) would spin forever. A call that makes no progress for 10 s is
+// reported on stderr and the harness exits non-zero (the check then fails with that message).
+static CASE: AtomicU64 = AtomicU64::new(0);
+static DONE: AtomicBool = AtomicBool::new(false);
+static CURRENT: Mutex<Vec<Seat>> = Mutex::new(Vec::new());
+
+fn watchdog() {
+    std::thread::spawn(|| {
+        let mut last = u64::MAX;
+        let mut stalled = 0;
+        loop {
+            std::thread::sleep(std::time::Duration::from_millis(500));
+            if DONE.load(Ordering::SeqCst) {
+                return;
+            }
+            let c = CASE.load(Ordering::SeqCst);
+            if c == last && c % 2 == 1 {
+                stalled += 1;
+                if stalled >= 20 {
+                    let op = CURRENT.lock().map(|g| op_of(&g)).unwrap_or_default();
+                    eprintln!("C04 settle-does-not-terminate: Showdown::settle did not return within 10 s on `{op}`");
+                    std::process::exit(3);
+                }
+            } else {
+                stalled = 0;
+                last = c;
+            }
+        }
+    });
+}
+
+/// the real code (CASE is odd while the call is running)
 fn real(tab: &[Strength], l: &[Seat]) -> Option<Vec<i16>> {
+    if let Ok(mut g) = CURRENT.lock() {
+        g.clear();
+        g.extend_from_slice(l);
+    }
+    CASE.fetch_add(1, Ordering::SeqCst);
+    let r = real_call(tab, l);
+    CASE.fetch_add(1, Ordering::SeqCst);
+    r
+}
+fn real_call(tab: &[Strength], l: &[Seat]) -> Option<Vec<i16>> {
     let ledger: Vec<Settlement> = l.iter().map(|p| Settlement::from((p.risked, status_of(p.status), tab[p.strength as usize]))).collect();
     catch(move || Showdown::from(ledger).settle().iter().map(|s| s.reward).collect::<Vec<i16>>())
 }
@@ -314,6 +358,7 @@ fn main() {
     let a = args();
     let mut rng = Rng::new(a.seed);
     quiet_panics();
+    watchdog();
     let tab = strength_table();
     let sentinel = Strength::from((Ranking::MAX, Kickers::default()));
     for w in tab.windows(2) {
@@ -372,5 +417,6 @@ fn main() {
     for l in &big {
         ctx.case(l, "extreme");
     }
+    DONE.store(true, Ordering::SeqCst);
     ctx.run.finish();
 }
